@@ -7,8 +7,13 @@
    * hashes are interned to N; the all-zero hash (hotstuff.Hash{}) is 0.
    * a block is (hash, parent hash, view, qc) with qc = (certified hash, view label).
    * the block store is the list of stored blocks in order of insertion; [get] is the Go map
-     lookup ([Store] never overwrites, so "first match" is the stored block).  A failed
-     lookup models Get's failed fetch (the harness' sender never finds a block).
+     lookup ([Store] never overwrites, so "first match" is the stored block).
+   * Blockchain.Get fetches a block it does not have from a peer and STORES it.  The first part
+     of this file gives the rules as pure functions of the blocks that are AVAILABLE (stored or
+     obtainable); the last part ([fetch], [*_io]) mirrors the Go code Get by Get, threading the
+     store through every call, for a given set [net] of blocks the peers can supply.
+     RulesProofs shows that the threaded rules decide what the pure rules decide on
+     [stored ++ net] and only add fetched blocks to the store.
    * View is uint64: [+1] and [+2] wrap ([succ64], [add2_64]).
    * the lock (chained: bLock, simple: locked) is a block, as the Go pointer is.
    The simple-HotStuff commit rule is modelled WITH the repair of
@@ -71,10 +76,18 @@ Definition extends (f : store) (cur target : block) : bool :=
 
 (* ---------------------------------------------------------------- chained HotStuff *)
 
+(* the block the lock must move to when a block certifying [qb] is processed (CommitRule):
+   [true] when it is there, or when [qb] carries the placeholder certificate (zero hash) *)
+Definition lock_target_ok (f : store) (qb : block) : bool :=
+  if N.eqb (qc_hash (b_qc qb)) zero_hash then true
+  else match get f (qc_hash (b_qc qb)) with Some _ => true | None => false end.
+
 Definition chained_vote (f : store) (lock : block) (_ : view) (p : proposal) : bool :=
   let blk := p_block p in
   match get f (qc_hash (b_qc blk)) with
-  | Some qb => if N.ltb (b_view lock) (b_view qb) then true else extends f blk lock
+  | Some qb =>
+      if negb (lock_target_ok f qb) then false
+      else if N.ltb (b_view lock) (b_view qb) then true else extends f blk lock
   | None => extends f blk lock
   end.
 
@@ -131,7 +144,9 @@ Definition simple_vote (f : store) (lock : block) (v : view) (p : proposal) : bo
   if N.ltb (b_view blk) v then false
   else match get f (qc_hash (b_qc blk)) with
        | None => false
-       | Some par => negb (N.ltb (b_view par) (b_view lock))
+       | Some par =>
+           if negb (lock_target_ok f par) then false
+           else negb (N.ltb (b_view par) (b_view lock))
        end.
 
 (* [direct]: does the rule also ask for parent links and consecutive views (patched rule)? *)
@@ -213,5 +228,184 @@ Fixpoint run (rs : ruleset) (st : state) (ss : list step) : state * list obs :=
   | s :: r =>
       let '(st', o) := do_step rs st s in
       let '(st'', os) := run rs st' r in
+      (st'', o :: os)
+  end.
+
+(* ================================================================ the rules with fetching *)
+(* Blockchain.Get: local lookup, else RequestBlock; a fetched block is stored under its hash *)
+Definition fetch (net f : store) (h : hash) : store * option block :=
+  match get f h with
+  | Some b => (f, Some b)
+  | None =>
+      match get net h with
+      | Some b => (f ++ [b], Some b)
+      | None => (f, None)
+      end
+  end.
+
+Definition qc_ref_io (net f : store) (q : qc) : store * option block :=
+  if N.eqb (qc_hash q) zero_hash then (f, None) else fetch net f (qc_hash q).
+
+Fixpoint extends_io (fuel : nat) (net f : store) (cur target : block) : store * bool :=
+  if N.ltb (b_view target) (b_view cur) then
+    match fuel with
+    | O => (f, false)
+    | S k =>
+        match fetch net f (b_parent cur) with
+        | (f', None) => (f', false)
+        | (f', Some p) => extends_io k net f' p target
+        end
+    end
+  else (f, N.eqb (b_hash cur) (b_hash target)).
+
+(* the lock-target test of the vote rules: Get(qb.QuorumCert().BlockHash()) unless zero *)
+Definition lock_target_io (net f : store) (qb : block) : store * bool :=
+  if N.eqb (qc_hash (b_qc qb)) zero_hash then (f, true)
+  else match fetch net f (qc_hash (b_qc qb)) with
+       | (f', Some _) => (f', true)
+       | (f', None) => (f', false)
+       end.
+
+Definition chained_vote_io (net f : store) (lock : block) (_ : view) (p : proposal) : store * bool :=
+  let blk := p_block p in
+  let fuel := S (length f + length net) in
+  match fetch net f (qc_hash (b_qc blk)) with
+  | (f1, Some qb) =>
+      match lock_target_io net f1 qb with
+      | (f2, false) => (f2, false)
+      | (f2, true) =>
+          if N.ltb (b_view lock) (b_view qb) then (f2, true) else extends_io fuel net f2 blk lock
+      end
+  | (f1, None) => extends_io fuel net f1 blk lock
+  end.
+
+Definition chained_commit_io (net f : store) (lock blk : block) : store * (block * option block) :=
+  match qc_ref_io net f (b_qc blk) with
+  | (f1, None) => (f1, (lock, None))
+  | (f1, Some b1) =>
+      match qc_ref_io net f1 (b_qc b1) with
+      | (f2, None) => (f2, (lock, None))
+      | (f2, Some b2) =>
+          let lock' := if N.ltb (b_view lock) (b_view b2) then b2 else lock in
+          match qc_ref_io net f2 (b_qc b2) with
+          | (f3, None) => (f3, (lock', None))
+          | (f3, Some b3) =>
+              if N.eqb (b_parent b1) (b_hash b2) && N.eqb (b_view b1) (succ64 (b_view b2))
+                 && N.eqb (b_parent b2) (b_hash b3) && N.eqb (b_view b2) (succ64 (b_view b3))
+              then (f3, (lock', Some b3)) else (f3, (lock', None))
+          end
+      end
+  end.
+
+Definition fast_vote_io (net f : store) (v : view) (p : proposal) : store * bool :=
+  let blk := p_block p in
+  let fuel := S (length f + length net) in
+  match p_agg p with
+  | Some a =>
+      if N.ltb (succ64 (agg_view a)) (b_view blk) then (f, false)
+      else match fetch net f (qc_hash (b_qc blk)) with
+           | (f1, Some hb) => extends_io fuel net f1 blk hb
+           | (f1, None) => (f1, false)
+           end
+  | None => (f, N.leb v (b_view blk) && N.eqb (b_view blk) (succ64 (qc_view (b_qc blk))))
+  end.
+
+Definition fast_commit_io (net f : store) (blk : block) : store * option block :=
+  match qc_ref_io net f (b_qc blk) with
+  | (f1, None) => (f1, None)
+  | (f1, Some par) =>
+      match qc_ref_io net f1 (b_qc par) with
+      | (f2, None) => (f2, None)
+      | (f2, Some gp) =>
+          if N.eqb (b_parent blk) (b_hash par) && N.eqb (b_view blk) (succ64 (b_view par))
+             && N.eqb (b_parent par) (b_hash gp) && N.eqb (b_view par) (succ64 (b_view gp))
+          then (f2, Some gp) else (f2, None)
+      end
+  end.
+
+Definition simple_vote_io (net f : store) (lock : block) (v : view) (p : proposal) : store * bool :=
+  let blk := p_block p in
+  if N.ltb (b_view blk) v then (f, false)
+  else match fetch net f (qc_hash (b_qc blk)) with
+       | (f1, None) => (f1, false)
+       | (f1, Some par) =>
+           match lock_target_io net f1 par with
+           | (f2, false) => (f2, false)
+           | (f2, true) => (f2, negb (N.ltb (b_view par) (b_view lock)))
+           end
+       end.
+
+Definition simple_commit_io (net f : store) (lock blk : block) : store * (block * option block) :=
+  match fetch net f (qc_hash (b_qc blk)) with
+  | (f1, None) => (f1, (lock, None))
+  | (f1, Some p) =>
+      match fetch net f1 (qc_hash (b_qc p)) with
+      | (f2, None) => (f2, (lock, None))
+      | (f2, Some gp) =>
+          let lock' := if N.ltb (b_view lock) (b_view gp) then gp else lock in
+          match fetch net f2 (qc_hash (b_qc gp)) with
+          | (f3, None) => (f3, (lock', None))
+          | (f3, Some ggp) =>
+              if N.eqb (add2_64 (b_view ggp)) (b_view p)
+                 && (N.eqb (b_parent p) (b_hash gp) && N.eqb (b_view p) (succ64 (b_view gp))
+                     && N.eqb (b_parent gp) (b_hash ggp) && N.eqb (b_view gp) (succ64 (b_view ggp)))
+              then (f3, (lock', Some ggp)) else (f3, (lock', None))
+          end
+      end
+  end.
+
+Definition vote_rule_io (rs : ruleset) (net f : store) (lock : block) (v : view) (p : proposal)
+  : store * bool :=
+  match rs with
+  | Chained => chained_vote_io net f lock v p
+  | Fast => fast_vote_io net f v p
+  | Simple => simple_vote_io net f lock v p
+  end.
+
+Definition commit_rule_io (rs : ruleset) (net f : store) (lock blk : block)
+  : store * (block * option block) :=
+  match rs with
+  | Chained => chained_commit_io net f lock blk
+  | Fast => let '(f', c) := fast_commit_io net f blk in (f', (lock, c))
+  | Simple => simple_commit_io net f lock blk
+  end.
+
+(* runs with a network: SNet = the set of blocks the peers can supply changes;
+   SQuery = no effect (the harness reads which blocks are stored) *)
+Inductive nstep :=
+| NVote (v : view) (p : proposal)
+| NCommit (b : block)
+| NStore (b : block)
+| NNet (net : store)
+| NQuery.
+
+Inductive nobs :=
+| NOVote (r : bool)
+| NOCommit (committed : option hash) (lock_after : hash)
+| NONone
+| NOStored (stored : store).
+
+Definition nstate := (store * block * store)%type.   (* stored blocks, lock, net *)
+Definition init_nstate : nstate := ([genesis], genesis, []).
+
+Definition do_nstep (rs : ruleset) (st : nstate) (s : nstep) : nstate * nobs :=
+  let '(f, lock, net) := st in
+  match s with
+  | NVote v p =>
+      let '(f', r) := vote_rule_io rs net f lock v p in ((f', lock, net), NOVote r)
+  | NCommit b =>
+      let '(f', (lock', c)) := commit_rule_io rs net (store_block f b) lock b in
+      ((f', lock', net), NOCommit (option_map b_hash c) (b_hash lock'))
+  | NStore b => ((store_block f b, lock, net), NONone)
+  | NNet net' => ((f, lock, net'), NONone)
+  | NQuery => (st, NOStored f)
+  end.
+
+Fixpoint nrun (rs : ruleset) (st : nstate) (ss : list nstep) : nstate * list nobs :=
+  match ss with
+  | [] => (st, [])
+  | s :: r =>
+      let '(st', o) := do_nstep rs st s in
+      let '(st'', os) := nrun rs st' r in
       (st'', o :: os)
   end.
